@@ -20,6 +20,7 @@ package main
 
 import (
 	"context"
+	"errors"
 	"flag"
 	"fmt"
 	"strings"
@@ -32,7 +33,7 @@ import (
 	"verifharness/vh"
 )
 
-var pass = flag.String("pass", "hist", "seq|hist|block|blackhole|armpark|acceptrace")
+var pass = flag.String("pass", "hist", "seq|hist|block|blackhole|armpark|acceptrace|closestall")
 
 const closeSlack = time.Second
 
@@ -618,6 +619,87 @@ func acceptRacePass(c *vh.Ctx) {
 	}
 }
 
+// closeStallPass: a graceful Close from Selected against a peer that is UP BUT NOT READING (the
+// courtesy Separate.req written before the teardown cannot be delivered), crossed with the options
+// that gate a write bound — WithWriteTimeout(0) ("no bound"), a small value, the 30 s default — with
+// and without a send parked awaiting its reply, both roles. Close must return within closeTimeout +
+// slack, the parked send must get ErrConnClosed, and the usual hygiene must hold.
+func closeStallPass(c *vh.Ctx) {
+	for _, active := range []bool{true, false} {
+		for _, wt := range []time.Duration{0, 60 * time.Millisecond, -1} {
+			for _, parked := range []bool{false, true} {
+				cfg := lc.DefaultCfg()
+				cfg.WriteTimeout = wt
+				cfg.T3 = 5 * time.Second
+				cfg.CloseTimeout = 400 * time.Millisecond
+				// frames the peer reads before going deaf: active: Select.req (+ the parked primary);
+				// passive: Select.rsp (+ the parked primary)
+				deafAfter := 1
+				if parked {
+					deafAfter = 2
+				}
+				r, err := lc.New(active, cfg, func(int) lc.Plan { p := lc.Normal(); p.StopReadingAfter = deafAfter; p.MuteData = true; return p })
+				if err != nil {
+					c.Fail("C10: cannot build a connection", err.Error())
+					continue
+				}
+				wtName := map[time.Duration]string{0: "writeTimeout=0", 60 * time.Millisecond: "writeTimeout=60ms", -1: "writeTimeout=default"}[wt]
+				tag := fmt.Sprintf("closestall:%s/parked-send=%v", wtName, parked)
+				if o := r.Open(false, 2*time.Second); o.Class != "ok" {
+					c.Fail("C10: Open(background) failed", tag+" "+rname(r)+": "+o.Class)
+					continue
+				}
+				if !active && r.PeerConnect(2*time.Second) == nil {
+					c.Fail("C10: passive connection does not accept a peer", tag)
+				}
+				if !r.WaitState(hsms.SelectedState, 3*time.Second) {
+					c.Fail("C10: connection did not reach Selected", tag+" "+rname(r))
+				}
+				sendErr := make(chan error, 1)
+				if parked {
+					go func() { _, err, _ := r.SendRoundTrip(5 * time.Second); sendErr <- err }()
+					// wait until the peer has the primary (it is then deaf and mute)
+					dl := time.Now().Add(2 * time.Second)
+					for time.Now().Before(dl) {
+						ps := r.Peers()
+						if len(ps) > 0 && ps[len(ps)-1].DataSeen.Load() > 0 {
+							break
+						}
+						time.Sleep(time.Millisecond)
+					}
+				}
+				time.Sleep(5 * time.Millisecond)
+				res := r.Close()
+				checkCloseLatency(c, r, res, tag)
+				if res.Class == "hung" || res.Elapsed > r.CloseTimeout+closeSlack {
+					c.Fail("C10: graceful Close against a peer that is not reading did not return within closeTimeout + slack",
+						fmt.Sprintf("%s %s closeTimeout_ms=%d class=%s", tag, rname(r), r.CloseTimeout.Milliseconds(), res.Class))
+				} else {
+					if res.Goroutines != 0 || res.OpenConns != 0 || res.State != hsms.NotConnectedState {
+						c.Fail("C10: connection not clean after Close against a stalled peer", fmt.Sprintf("%s %s gor=%d handles=%d", tag, rname(r), res.Goroutines, res.OpenConns))
+					}
+					if parked {
+						select {
+						case err := <-sendErr:
+							if !errors.Is(err, hsms.ErrConnClosed) {
+								c.Fail("C10: a send awaiting its reply was not released with ErrConnClosed by Close", fmt.Sprintf("%s %s: %v", tag, rname(r), err != nil))
+							}
+						case <-time.After(time.Second):
+							c.Fail("C10: a send awaiting its reply was not released by Close", tag+" "+rname(r))
+						}
+					}
+					if r2 := r.Close(); r2.Class != "ok" {
+						c.Fail("C10: second Close is not nil", tag+" "+rname(r)+": "+r2.Class)
+					}
+				}
+				r.Shutdown()
+				c.Count("closestall/" + rname(r) + "/" + wtName)
+				judge(c, r, tag)
+			}
+		}
+	}
+}
+
 func seqPass(c *vh.Ctx) {
 	ensureOpenPass(c)
 	for i := 0; i < c.N; i++ {
@@ -921,6 +1003,8 @@ func main() {
 		armParkPass(c)
 	case "acceptrace":
 		acceptRacePass(c)
+	case "closestall":
+		closeStallPass(c)
 	default:
 		c.Note("unknown pass " + *pass)
 	}
